@@ -17,7 +17,7 @@ DELAYS = [0.25, 0.5, 1.0]
 OPS = ([("cb",), ("cb_raise",), ("cb_failfut",), ("spawn",), ("cb_nested",), ("cb_raise_bad",)] +
        [(k, d) for k in ("to_abs", "to_delta", "later", "at") for d in DELAYS] +
        [("to_delta", 86400.5), ("to_delta", -1.0)] +
-       [("block", 0.6), ("to_abs_at", 0.5), ("to_abs_at", 0.3), ("addfut_cf_done",)] +
+       [("block", 0.6), ("to_abs_at", 0.5), ("to_abs_at", 0.3), ("addfut_cf_done",), ("to_abs_frac", 0.5), ("cb_failcf",)] +
        [("rm", 0), ("rm", 1), ("cb_rm", 0), ("cb_rm", 1), ("to_rm", 0.75, 0), ("to_rm", 0.4, 1),
         ("addfut_done",), ("addfut_later",), ("to_raise", 0.6)])
 
@@ -117,6 +117,25 @@ def run_program(prog, shifted=False):
                 else:
                     hd = io.call_at(io.time() + d, mk(name))
                 handles.append((name, hd))
+            elif k == "to_abs_frac":
+                # an absolute deadline that is a real number but neither int nor float
+                import fractions
+                reg(name, "timeout", w.loop.vtime + op[1])
+                try:
+                    handles.append((name, io.add_timeout(fractions.Fraction(io.time() + op[1]), mk(name))))
+                except Exception as e:
+                    log.append((name + "#raised:" + type(e).__name__, w.loop.vtime))
+            elif k == "cb_failcf":
+                reg(name, "callback")
+
+                def f():
+                    # e.g. add_callback(executor.submit, job): the callback hands back an executor future that failed
+                    import concurrent.futures
+                    log.append((name, w.loop.vtime))
+                    cf = concurrent.futures.Future()
+                    cf.set_exception(Boom(name))
+                    return cf
+                io.add_callback(f)
             elif k == "block":
                 w.loop.vtime += op[1]         # the loop is busy for a while: time passes, nothing runs
             elif k == "to_abs_at":
@@ -208,7 +227,7 @@ def judge_program(prog, o):
         if info["kind"] == "addfut" and name in names and (name + "#returned") in names:
             if names.index(name) < names.index(name + "#returned"):
                 bad.append(("add_future-callback-inline", "%s ran before the completing call returned" % name))
-    nraise = sum(1 for n in names if n.split(":")[-1] in ("cb_raise", "cb_failfut", "to_raise", "cb_raise_bad"))
+    nraise = sum(1 for n in names if n.split(":")[-1] in ("cb_raise", "cb_failfut", "to_raise", "cb_raise_bad", "cb_failcf"))
     if len(o["errlogs"]) != nraise:
         bad.append(("error-logging", "%d raising callbacks ran, %d ERROR records: %r" % (nraise, len(o["errlogs"]), o["errlogs"][:2])))
     if o["escaped"]:
@@ -252,6 +271,13 @@ def run_sync_case(kind, timeout):
             io.call_later(0.25, f.set_result, "done-first")
             return f
 
+        def uncancellable():
+            # a future that refuses cancellation and never finishes: run_sync still gives up at its deadline
+            class Stubborn(asyncio.Future):
+                def cancel(self, msg=None):
+                    return False
+            return Stubborn()
+
         def plain():
             marks.append("plain-ran")     # run_sync requires an awaitable or None
             return None
@@ -264,7 +290,7 @@ def run_sync_case(kind, timeout):
             yield gen.sleep(0.25)
             raise gen.Return("gen")
         fn = {"returns": returns, "raises": raises, "sleeps": sleeps, "never": never, "plain": plain, "busy_then_done": busy_then_done,
-              "plain_raises": plain_raises, "gen_style": gen_style}[kind]
+              "plain_raises": plain_raises, "gen_style": gen_style, "uncancellable": uncancellable}[kind]
         events._set_running_loop(None)
         again = None
         try:
@@ -326,7 +352,13 @@ def judge_sync(kind, timeout, o):
             "busy_then_done": ("ok", "done-first"),
             "plain_raises": ("exc", "Boom"), "gen_style": ("ok", "gen")}.get(kind)
     bad = []
-    if kind == "never":
+    if kind == "uncancellable":
+        if o["res"] != ("exc", "TimeoutError"):
+            bad.append(("run_sync-timeout:%s" % (o["res"],), "a function whose future refuses cancel(): expected TimeoutError at the "
+                        "deadline, got %r" % (o["res"],)))
+        elif abs(o["vtime"] - timeout) > 1e-3:
+            bad.append(("run_sync-timeout-time", "timed out at virtual time %r" % o["vtime"]))
+    elif kind == "never":
         if timeout is None:
             if o["res"][0] != "deadlock":
                 bad.append(("run_sync-never-returned-%s" % o["res"][0], repr(o["res"])))
@@ -417,8 +449,8 @@ class C38(Check):
                                          {"kind": "prog", "prog": [list(op) for op in prog], "shifted": True})
             st.setmax("max_program_length", L)
         elif part[0] == "sync":
-            for kind in ("returns", "raises", "sleeps", "never", "plain", "plain_raises", "gen_style", "busy_then_done"):
-                for timeout in (None, 0.5, 2, 0, 0.0):
+            for kind in ("returns", "raises", "sleeps", "never", "plain", "plain_raises", "gen_style", "busy_then_done", "uncancellable"):
+                for timeout in ((None, 0.5, 2, 0, 0.0) if kind != "uncancellable" else (0.5, 2)):
                     o = run_sync_case(kind, timeout)
                     st.ev()
                     st.transitions += 1
